@@ -340,10 +340,12 @@ where
         let request_hash = response.request_type().hash();
 
         // check whether we are (still) waiting on response to this request
-        let Some(_) = self.outstanding_requests.remove(&request_hash) else {
+        // NOTE: The request only stops being outstanding once a valid response was accepted.
+        // Otherwise, a single invalid response would cancel the timeout-based retry.
+        if !self.outstanding_requests.contains_key(&request_hash) {
             warn!("received repair response for unknown request {response:?}");
             return;
-        };
+        }
 
         match response {
             RepairResponse::Nack(req_type) => {
@@ -370,6 +372,7 @@ where
                 }
 
                 // store slice Merkle root
+                self.outstanding_requests.remove(&request_hash);
                 self.slice_roots
                     .insert((block_id.clone(), last_slice), root);
 
@@ -396,6 +399,7 @@ where
                 }
 
                 // store slice Merkle root
+                self.outstanding_requests.remove(&request_hash);
                 self.slice_roots.insert((block_id.clone(), slice), root);
 
                 // issue next requests
@@ -437,6 +441,7 @@ where
                 };
 
                 // store shred
+                self.outstanding_requests.remove(&request_hash);
                 let res = self
                     .blockstore
                     .write()
